@@ -1,8 +1,26 @@
 import Driver.Util
-open Lean
+import Driver.C12
+import Paroxy.Model.Hints
+import Paroxy.Model.ParseGlue
+open Lean Paroxy Paroxy.Hints Paroxy.Glue
 
 namespace Driver.C02
 
-def handlers : List (String × Handler) := []
+/-- `c02.spec_valid`: the property predicate `1 ≤ start ≤ end ≤ number of lines of the listing`
+(= `Props.C02.validSpanB`, restated here because the driver must not import the proofs) on each
+span. -/
+def specValid : Handler := fun j => do
+  let listing ← getStr j "listing"
+  let spans ← (← getArr j "spans").toList.mapM fun sp => do
+    match ← intList sp with
+    | [s, e] => pure (s, e)
+    | _ => throw "span must be [s,e]"
+  let n : Int := (lineCount listing.toList : Nat)
+  let r := spans.map fun (p : Int × Int) => decide (1 ≤ p.1) && decide (p.1 ≤ p.2) && decide (p.2 ≤ n)
+  pure (Json.mkObj [("r", Json.str (bits r)), ("nlines", Json.num (lineCount listing.toList))])
+
+def handlers : List (String × Handler) :=
+  [("c02.spec_valid", specValid), ("c02.get_program", C12.getProgramH), ("c02.get_bindings", C12.getBindingsH),
+   ("c02.error_span", C12.errorSpanH)]
 
 end Driver.C02
